@@ -6,7 +6,7 @@ CONSTANTS
   RenumNew <- NewEmit
   RenumOld <- OldEmit
   RenumInc <- IncEmit
-VIEW View
+VIEW ViewE
 INVARIANT RefinesInv
 ACTION_CONSTRAINT Emit
 CHECK_DEADLOCK FALSE
